@@ -294,3 +294,10 @@ Proof.
     destruct (rf_blocks d rf_bs0 ops) as [|b bl]; [reflexivity|].
     destruct (Hshape 0%nat b eq_refl) as (A & _). cbn [concat] in Hcat. destruct b; [cbn in A; lia|discriminate Hcat].
 Qed.
+
+(* the vocabulary of rb_fp_blocks_eq, for Properties_refine.v *)
+Lemma rb_vocab_fp_blocks :
+  (forall w spd first k, rb_fp_blocks w spd first k [] = []) /\
+  (forall w spd first k b r, rb_fp_blocks w spd first k (b :: r) =
+     ((first + Z.of_nat k * Z.of_N spd)%Z, N.of_nat (length b), pack w b) :: rb_fp_blocks w spd first (S k) r).
+Proof. split; reflexivity. Qed.
